@@ -89,6 +89,7 @@ static void wl_certify(Rng& r, long count) {
         const ExprNode* e;
         if (j == 0) { e = &(x[0] - roots[0]); for (int k = 1; k < nr; k++) e = &(*e * (x[0] - roots[k])); }
         else e = &(x[j] - ca[j] * x[0] - cb[j]);
+        if (r.coin(30)) e = &(std::ldexp(1.0, -(int)r.range(3, 6)) * *e);      // a small gradient (the row is a candidate for being dropped by a pivoting strategy)
         es.push_back(e); ops.push_back(EQ);
       }
       int k = r.range(1, 3);
@@ -128,6 +129,10 @@ static void wl_certify(Rng& r, long count) {
         IntervalVector sb(n); int style = r.below(3);
         for (int i = 0; i < n; i++) { double rl = style == 0 ? std::ldexp(1.0, -(int)r.range(6, 20)) : r.range(1, 16) / 64.0, ru = style == 0 ? std::ldexp(1.0, -(int)r.range(6, 20)) : r.range(1, 16) / 64.0; sb[i] = Interval(c[i] - rl, c[i] + ru); }
         int mode = r.below(3);     // 0: the inner finder fails (the midpoint of the box is used); 1: it returns a point close to the zero; 2: the zero itself
+        if (r.coin(22)) {          // 3: a VERTEX of the domain (as LP-based finders return): bounds are active together with the constraints
+          mode = 3; c = Vector(n);
+          for (int i = 0; i < n; i++) { double w = r.range(1, 16) / 8.0; if (r.coin()) { c[i] = box[i].lb(); sb[i] = Interval(c[i], c[i] + w); } else { c[i] = box[i].ub(); sb[i] = Interval(c[i] - w, c[i]); } }
+        }
         ff.have = mode != 0;
         if (ff.have) { ff.pt = c; if (mode == 1) for (int i = 0; i < n; i++) ff.pt[i] += std::ldexp(1.0, -(int)r.range(28, 40)) * (r.coin() ? 1 : -1); Interval gv = sys.goal->eval(IntervalVector(ff.pt)); ff.val = gv.ub(); }
         string res = "NOTFOUND - -";
